@@ -128,6 +128,14 @@ class ScopeNameFinder:
             name = self.worder.get_from_aliased(offset)
         else:
             name = self.worder.get_primary_at(offset)
+        if (
+            holding_scope.get_kind() == "Class"
+            and holding_scope.parent is not None
+            and holding_scope.get_start() <= lineno < holding_scope.get_body_start()
+        ):
+            # a class header (its name, its base expressions) is evaluated
+            # in the enclosing scope, not among the members of the class
+            holding_scope = holding_scope.parent
         return eval_str2(holding_scope, name)
 
     def get_enclosing_function(self, offset):
